@@ -24,6 +24,7 @@ fn main() {
     let mut mpks: Vec<MasterPublicKey> = vec![];
     let mut usks: Vec<UserSecretKey> = vec![];
     let mut encs: Vec<(Secret<32>, XEnc)> = vec![];
+    let mut snaps: Vec<Vec<u8>> = vec![];
     for line in stdin.lock().lines() {
         let line = line.unwrap();
         let f: Vec<&str> = line.split(' ').collect();
@@ -53,7 +54,7 @@ fn main() {
         match f[0] {
             "SETUP" => {
                 let (m, p) = cc.setup().unwrap();
-                msk = m; mpks.clear(); usks.clear(); encs.clear();
+                msk = m; mpks.clear(); usks.clear(); encs.clear(); snaps.clear();
                 writeln!(out, "OK|{}|{}", dump_msk(&msk), dump_mpk(&p)).unwrap();
                 mpks.push(p);
             }
@@ -89,7 +90,7 @@ fn main() {
                 if j >= mpks.len() { writeln!(out, "NOIDX|{}", dump_msk(&msk)).unwrap(); continue; }
                 match pol!(f[2]) {
                     Some(p) => match cc.encaps(&mpks[j], &p) {
-                        Ok((s, e)) => { writeln!(out, "OK|{}|{}", dump_msk(&msk), dump_enc(&e)).unwrap(); encs.push((s, e)); }
+                        Ok((s, e)) => { writeln!(out, "OK|{}|{} ss=k{}", dump_msk(&msk), dump_enc(&e), hex(&s[..8])).unwrap(); encs.push((s, e)); }
                         Err(_) => writeln!(out, "ERR|{}", dump_msk(&msk)).unwrap(),
                     },
                     None => writeln!(out, "ERR|{}", dump_msk(&msk)).unwrap(),
@@ -112,9 +113,17 @@ fn main() {
                 let e: usize = f[2].parse().unwrap(); let e = if encs.is_empty() { usize::MAX } else { e % encs.len() };
                 if j >= mpks.len() || e >= encs.len() { writeln!(out, "NOIDX|{}", dump_msk(&msk)).unwrap(); continue; }
                 match cc.recaps(&msk, &mpks[j], &encs[e].1) {
-                    Ok((s, x)) => { writeln!(out, "OK|{}|{}", dump_msk(&msk), dump_enc(&x)).unwrap(); encs.push((s, x)); }
+                    Ok((s, x)) => { writeln!(out, "OK|{}|{} ss=k{}", dump_msk(&msk), dump_enc(&x), hex(&s[..8])).unwrap(); encs.push((s, x)); }
                     Err(_) => writeln!(out, "ERR|{}", dump_msk(&msk)).unwrap(),
                 }
+            }
+            // backup / restore of the master key (an old serialized copy replaces the current one)
+            "SNAP" => { snaps.push(msk.serialize().unwrap().to_vec()); writeln!(out, "OK|{}", dump_msk(&msk)).unwrap(); }
+            "REST" => {
+                if snaps.is_empty() { writeln!(out, "NOIDX|{}", dump_msk(&msk)).unwrap(); continue; }
+                let k: usize = f[1].parse::<usize>().unwrap() % snaps.len();
+                msk = MasterSecretKey::deserialize(&snaps[k]).unwrap();
+                writeln!(out, "OK|{}", dump_msk(&msk)).unwrap();
             }
             // serialization round trips: the deserialized object REPLACES the original for the rest of the history
             "RT" => {
